@@ -65,4 +65,5 @@ var genericCmds = map[string]func(common.Args, *common.Out) error{
 	"schemacheck": generic.SchemaCheck,
 	"emureplay":   generic.EmuReplay,
 	"gwreplay":    generic.WideReplay,
+	"hashreplay":  generic.HashReplay,
 }
